@@ -8,7 +8,7 @@ from . import core
 
 FS = ['C01', 'C02', 'C04', 'C05', 'C12', 'C17']
 SS = ['C06', 'C07', 'C08', 'C09', 'C10']
-WORLDS = [(cc, o) for cc in ('gcc', 'clang') for o in ('-O0', '-O1', '-O2', '-O3')]
+WORLDS = [(cc, o) for cc in ('gcc', 'clang') for o in ('-O0', '-O1', '-O2', '-O3', '-Os')]
 WSRC = ['wrap_generic.c', 'wrap_ser.c', 'wrap_bo.c']
 
 
@@ -18,7 +18,7 @@ def build_all(b, with_san=True):
     nf = core.build_native(os.path.join(b, 'native_f'), g, ['common.c', 'explore_fields.c'])
     ns = core.build_native(os.path.join(b, 'native_s'), g, ['common.c', 'explore_ser.c'])
     exes = {}
-    worlds = list(WORLDS) + ([('clang', '-O1', 'align')] if with_san else [])
+    worlds = list(WORLDS) + ([('clang', '-O1', 'align'), ('clang', '-Os', 'align'), ('clang', '-O0', 'align')] if with_san else [])
     for w in worlds:
         cc, opt = w[0], w[1]
         san = len(w) > 2
@@ -130,7 +130,7 @@ def run(prop, tier):
                                   'detail': '%s of %s through a pointer that is only byte aligned, in %s (PDU offsets %s)' % (kind, typ, fn, sorted(offsets)), 'tag': ''}
     res.counters['states'] = res.counters.get('states', 0)
     core.finish('C15', tier, t0, res,
-                rule='configurations = {gcc,clang} x {-O0,-O1,-O2,-O3} x PDU start at a 16-byte boundary + {0..7} = 64, each running the %s lattices of C01 C02 C04 C05 C06 C07 C08 C09 C10 C12 C17 against the reference model (so all configurations agree with each other); transcripts compared between worlds per offset; a failure present in all 64 configurations is not a placement dependence (it is reported by its own property); plus a clang -O1 -fsanitize=alignment world over the same cases x 8 offsets, every misaligned-access report keyed by function/type/direction' % ltier,
+                rule='configurations = {gcc,clang} x {-O0,-O1,-O2,-O3,-Os} x PDU start at a 16-byte boundary + {0..7} = 80, each running the %s lattices of C01 C02 C04 C05 C06 C07 C08 C09 C10 C12 C17 against the reference model (so all configurations agree with each other); transcripts compared between worlds per offset; a failure present in all configurations is not a placement dependence (it is reported by its own property); plus clang -O0/-O1/-Os -fsanitize=alignment worlds over the same cases x 8 offsets, every misaligned-access report keyed by function/type/direction' % ltier,
                 bounds={'worlds': [w[0] + w[1] for w in WORLDS], 'offsets': offs, 'lattice': ltier, 'explorer_runs': len(jobs), 'transcript_groups_compared': ntr},
                 assumptions=['only the PDU moves; arrays owned by the caller (VSS element arrays, result objects) stay naturally aligned', 'x86-64 host: a misaligned access does not trap here, which is why the alignment-sanitizer world is part of the check'],
                 recipe={'engine': 'c15'}, extra_cov={'failures_identical_in_all_configurations': general[:20], 'alignment_reports': len(align)})
@@ -142,9 +142,8 @@ def replay(prop, case):
     if case.startswith('align|'):
         fn = case.split('|')[1]
         env = dict(os.environ, UBSAN_OPTIONS='print_stacktrace=1:halt_on_error=0')
-        ef, es = exes['clang-O1-align']
         hit = 0
-        for exe, suites in ((ef, FS), (es, SS)):
+        for exe, suites in [(exes[w][0], FS) for w in exes if w.endswith('-align')] + [(exes[w][1], SS) for w in exes if w.endswith('-align')]:
             for s in suites:
                 p = subprocess.run([exe, '--suite', s, '--tier', 'lite', '--off', '1'], stdout=subprocess.PIPE, stderr=subprocess.PIPE, text=True, env=env)
                 for a in sorted(parse_align(p.stderr)):
